@@ -728,8 +728,10 @@ func (t *Transport) newClientConn(c net.Conn, singleUse bool) (*ClientConn, erro
 	var headerTableSize uint32 = initialHeaderTableSize
 	for _, setting := range t.Settings {
 		switch setting.ID {
-		case http2.SettingMaxFrameSize:
-			cc.maxFrameSize = setting.Val
+		// http2.SettingMaxFrameSize is the largest frame WE accept (our Framer
+		// reads any legal size). cc.maxFrameSize is the PEER's limit for what we
+		// send: it stays at the spec default until the peer's own SETTINGS say
+		// otherwise.
 		case http2.SettingMaxHeaderListSize:
 			t.MaxHeaderListSize = setting.Val
 		case http2.SettingHeaderTableSize:
